@@ -22,9 +22,25 @@ LEAVES = [("sym", "a"), ("sym", "b"), ("eps",), ("sym", "|"), ("sym", "$"), ("sy
 _AST = {}
 
 
+def deep_star_asts():
+    """star over a concatenation of composite factors (sizes 4-9, beyond the complete layers): (X Y)*, a (X Y)*,
+    (X Y)* | b for X, Y among a symbol, a union, a star, a union with epsilon, a concatenation"""
+    a, b = ("sym", "a"), ("sym", "b")
+    parts = [a, ("alt", a, b), ("star", a), ("alt", b, ("eps",)), ("cat", a, b)]
+    out = []
+    for x in parts:
+        for y in parts:
+            st = ("star", ("cat", x, y))
+            out += [st, ("cat", a, st), ("alt", st, b)]
+    return out
+
+
 def asts(s):
-    """All ASTs with exactly s nodes."""
+    """All ASTs with exactly s nodes ("deep": the deep_star_asts family)."""
     if s in _AST:
+        return _AST[s]
+    if s == "deep":
+        _AST[s] = deep_star_asts()
         return _AST[s]
     if s == 1:
         out = list(LEAVES)
